@@ -203,8 +203,14 @@ pub fn silence_case_mode(ctx: &Ctx, own_timeout: u32, silent_from: u32, learning
 /// default port, as with the default listen setting, and the same unique-local address in use on separate sites); 2 every node advertises an own distinct extra address; 3 the nodes advertise
 /// each other's socket address as well (stale / copied configuration)
 pub fn silence_case_adv(ctx: &Ctx, own_timeout: u32, silent_from: u32, learning: bool, advertise: u8) -> Vec<Viol> {
+    silence_case_full(ctx, own_timeout, silent_from, learning, advertise, 0)
+}
+
+/// `payload_every` > 0: the node is not completely silent - its node information and keepalive messages are lost, but
+/// a payload frame of it still arrives every `payload_every` seconds. Only node information and keepalives count.
+pub fn silence_case_full(ctx: &Ctx, own_timeout: u32, silent_from: u32, learning: bool, advertise: u8, payload_every: u32) -> Vec<Viol> {
     ctx.eval();
-    let case = json!({"kind": "silence", "own_timeout": own_timeout, "silent_from": silent_from, "learning": learning, "advertise": advertise});
+    let case = json!({"kind": "silence", "own_timeout": own_timeout, "silent_from": silent_from, "learning": learning, "advertise": advertise, "payload_every": payload_every});
     let mut out = vec![];
     let mut sim: NetSim<Frame> = NetSim::new();
     for i in 0..3 {
@@ -251,13 +257,26 @@ pub fn silence_case_adv(ctx: &Ctx, own_timeout: u32, silent_from: u32, learning:
     }
     // node 2 goes silent: everything it sends is lost from now on
     let x = sim.addr(2);
-    sim.policy = Some(Box::new(move |d| if d.src == x { vec![] } else { vec![0] }));
+    let pass = std::rc::Rc::new(std::cell::Cell::new(false));
+    let pass2 = pass.clone();
+    sim.policy = Some(Box::new(move |d| if d.src == x && !pass2.get() { vec![] } else { vec![0] }));
     sim.record = true;
     // last refresh of X at Y = expiry - timeout
     let mut removed_at: [Option<i64>; 2] = [None, None];
     let expiry: Vec<i64> = (0..2).map(|y| sim.nodes[y].node.verif_peers().iter().find(|p| p.addr == x).map(|p| p.timeout).unwrap_or(0)).collect();
-    for _ in 0..(own_timeout as i64 + 140) {
+    for k in 0..(own_timeout as i64 + 140) {
         sim.tick();
+        if payload_every > 0 && k % payload_every as i64 == 0 && !sim.nodes[2].dead {
+            // a payload frame / packet read at the quiet node reaches its peers (nothing else of it does)
+            pass.set(true);
+            let f = if learning { crate::sim::eth_frame([0xff; 6], [2, 0, 0, 0, 9, 9], None, b"still talking") } else { crate::sim::ipv4_packet([10, 3, 0, 1], [10, 1 + (k % 2) as u8, 0, 1], b"still talking") };
+            sim.put_payload(2, f);
+            sim.settle();
+            pass.set(false);
+            for n in 0..3 {
+                sim.take_iface(n);
+            }
+        }
         for y in 0..2 {
             let present = sim.nodes[y].node.verif_peers().iter().any(|p| p.addr == x);
             if !present && removed_at[y].is_none() {
@@ -293,7 +312,10 @@ pub fn silence_case_adv(ctx: &Ctx, own_timeout: u32, silent_from: u32, learning:
             }
         }
     }
-    ctx.nontrivial(&("silence", own_timeout, silent_from));
+    ctx.nontrivial(&("silence", own_timeout, silent_from, learning, advertise, payload_every));
+    if payload_every > 0 {
+        ctx.class("silence:payload-still-arrives");
+    }
     out
 }
 
@@ -467,6 +489,20 @@ pub fn run(ctx: &Ctx) {
     });
     ctx.subspace("silence injection with advertised addresses: the same private address advertised by every node / a distinct extra address per node", sa.len() as u64, true);
 
+    let mut sp = vec![];
+    for (own, t) in [(120u32, 0u32), (120, 13), (300, 3), (300, 44)] {
+        for learning in [false, true] {
+            for every in [1u32, 10, 100] {
+                sp.push((own, t, learning, every));
+            }
+        }
+    }
+    ctx.par_items(&sp, |_, (own, t, learning, every)| {
+        let v = silence_case_full(ctx, *own, *t, *learning, 0, *every);
+        ctx.report(v);
+    });
+    ctx.subspace("silence of node information and keepalives only: payload of the quiet node still arrives every 1 / 10 / 100 s", sp.len() as u64, true);
+
     // (d) back-off
     let v = backoff_case(ctx, 48);
     ctx.report(v);
@@ -477,7 +513,7 @@ pub fn replay(ctx: &Ctx, case: &Value) {
     let v = match case["kind"].as_str() {
         Some("interval") => serde_json::from_value::<IntervalCase>(case["case"].clone()).map(|c| interval_case(ctx, &c)).unwrap_or_default(),
         Some("mesh") => serde_json::from_value::<MeshCase>(case["case"].clone()).map(|c| mesh_case(ctx, &c)).unwrap_or_default(),
-        Some("silence") => silence_case_adv(ctx, case["own_timeout"].as_u64().unwrap_or(300) as u32, case["silent_from"].as_u64().unwrap_or(0) as u32, case["learning"].as_bool().unwrap_or(false), case["advertise"].as_u64().unwrap_or(0) as u8),
+        Some("silence") => silence_case_full(ctx, case["own_timeout"].as_u64().unwrap_or(300) as u32, case["silent_from"].as_u64().unwrap_or(0) as u32, case["learning"].as_bool().unwrap_or(false), case["advertise"].as_u64().unwrap_or(0) as u8, case["payload_every"].as_u64().unwrap_or(0) as u32),
         Some("backoff") => backoff_case(ctx, case["hours"].as_u64().unwrap_or(48) as u32),
         _ => vec![],
     };
